@@ -69,3 +69,31 @@ Lemma rw3_outputs : snd (run (init rw3_cfg 0) rw3_evs) =
 Proof. vm_compute. reflexivity. Qed.
 Lemma rw3_accepted : trace_ok rw3_cfg 0 (model_trace rw3_cfg 0 rw3_evs) = true.
 Proof. vm_compute. reflexivity. Qed.
+
+(* ---- a model trace that position 15 (e_early) rejects: an assignment whose delivery was cancelled ---------------------------------------------------
+   Retry count 1.  A worker parks; its Synchronize call is cancelled; before the cancelled call leaves the scheduler an
+   Execute hands the still listed worker a task; the call returns CANCELLED: the worker holds the task without ever
+   having been told.  The worker asks again: the model (like getCurrentOrNextTask in the code) finds a held task, counts
+   t_retry = 1 and tells it (first DExec: m_reissue[w] = (ops, 0)); it asks once more: t_retry has reached the limit, the
+   task is failed with INTERNAL, and e_early reads 0 <> 1: "C06:task-failed-before-retry-limit".  The monitor counts the
+   answers the worker got, the scheduler counts how often it found the worker holding the task. *)
+Definition rw4_evs : list (event * list (nat * wref)) :=
+  [ (ERegister 0 (mkPK [] 0) [] 0 0 [1%N] 1, []);
+    (EStartSync 1 (mkSync rw_w WIdle false) 2, []);
+    (ECancel 1, []);
+    (EStartExecute 2 (mkExec [] 0 5 false 0 [] (0%nat, 10, 100, Learner 1 None None)) 3, []);
+    (EEnter 1 4, []);
+    (EStartSync 3 (mkSync rw_w WIdle false) 5, []);
+    (EStartSync 4 (mkSync rw_w WIdle false) 6, []) ].
+Lemma rw4_hypotheses : selectors_in_range (init rw3_cfg 0) rw4_evs /\ fresh_calls [] rw4_evs /\ bg_scripts_ok rw4_evs /\ learner_ids_unique rw4_evs /\ causes_ok rw4_evs.
+Proof.
+  split; [apply selectors_in_rangeb_sound; vm_compute; reflexivity|]. split; [cbn; intuition congruence|].
+  split; [apply bg_scripts_okb_sound; vm_compute; reflexivity|]. split; [apply learner_ids_uniqueb_sound; vm_compute; reflexivity|apply causes_okb_sound; vm_compute; reflexivity].
+Qed.
+Lemma rw4_outputs : snd (run (init rw3_cfg 0) rw4_evs) =
+  [[ORet 0 0]; []; []; [OGhost GSelect; OMsg 2 0 3 None]; [ORet 1 1]; [OSync 3 (DExec 5 false 100 3 []) 15]; [OGhost (GAbandoned 1)]].
+Proof. vm_compute. reflexivity. Qed.
+Lemma rw4_rejected : trace_ok rw3_cfg 0 (model_trace rw3_cfg 0 rw4_evs) = false /\ trace_sub [15%nat] rw3_cfg 0 (model_trace rw3_cfg 0 rw4_evs) = false.
+Proof. split; vm_compute; reflexivity. Qed.
+Lemma rw4_others_accept : trace_sub [0;1;2;3;4;5;6;7;8;9;10;11;12;13;14;16;17;18;19]%nat rw3_cfg 0 (model_trace rw3_cfg 0 rw4_evs) = true.
+Proof. vm_compute. reflexivity. Qed.
